@@ -198,6 +198,10 @@ def next_(interp, it, node=None):
             return it.items[it.i - 1]
         raise stop_iteration(interp, it, node)
     if isinstance(it, SrcIter):
+        if getattr(it, 'may_fail', False) and ctx.branch(smt.fresh_bool('source_fails'), 'the source raises here'):
+            e = PyExc('SourceError', None, interp.where(node) if node is not None else None)
+            e.source_pos = it.pos
+            raise e
         if ctx.branch(it.pos < it.n, 'next'):
             p = it.pos
             it.pos = z3.simplify(it.pos + 1)
@@ -1347,6 +1351,8 @@ def getattr_builtin(interp, obj, attr, node=None):
     if isinstance(obj, Opaque):
         if attr in obj.attrs:
             return obj.attrs[attr]
+        if getattr(obj, 'methods', None) is not None and attr not in obj.methods:
+            interp.raise_('AttributeError', attr, node)
         return Builtin('%s.%s' % (obj.kind, attr), lambda interp, args, kw, node_, o=obj, a=attr: opaque_method(interp, o, a, args, kw, node_))
     if isinstance(obj, CaughtExc):
         return Opaque('excattr')
@@ -1676,6 +1682,8 @@ def _hasattr(interp, args, kw, node):
         return SBool(z3.Function('hasattr_%s' % a, V, B)(o.t))
     if isinstance(o, (Seq, PyList, tuple)):
         return a in ('__iter__', '__len__', '__getitem__')
+    if isinstance(o, Opaque):
+        return a in o.attrs or a in (getattr(o, 'methods', None) or ())
     return False
 
 
